@@ -8,16 +8,25 @@
    Concrete state: every IR value (register or op result) holds
       CUninit            never assigned: its C variable is uninitialised memory
       CNull u            the error value (NULL / tagged-int error / ...); u = it stands for "undefined local"
-      CObj k b           a real object; this NAME holds k references to it; b = the pointer is valid even
-                         with k = 0 (a borrowed reference: argument, borrowed op result, non-refcounted)
-   CObj 0 false is a released (possibly dangling) pointer.                                             *)
+      CObj k b           a real object; this NAME holds k references to it; b says why the pointer is valid
+                         even with k = 0 (a borrowed reference):
+                           BAlways   argument / static / literal / non-refcounted value
+                           BFrom w   borrowed from the object held through value w: valid only while w still
+                                     holds it; when w gives up its last reference the borrowers inherit w's own
+                                     justification (or become BNone), when w's reference MOVES to d (Assign)
+                                     they follow it (BFrom d)
+                           BNone     no justification
+   CObj 0 BNone is a released (possibly dangling) pointer: any use of it is a violation
+   ("no use after the owner's last release").                                                        *)
 From Coq Require Import PArith List Bool Arith.
 Import ListNotations.
 
 Definition val := positive.
 Definition label := positive.
 
-Inductive cval := CUninit | CNull (u : bool) | CObj (k : nat) (b : bool).
+Inductive bor := BNone | BAlways | BFrom (w : val).
+Definition valid (b : bor) : bool := match b with BNone => false | _ => true end.
+Inductive cval := CUninit | CNull (u : bool) | CObj (k : nat) (b : bor).
 
 Definition cstate := val -> cval.
 Definition cset (v : val) (c : cval) (s : cstate) : cstate := fun x => if Pos.eqb x v then c else s x.
@@ -27,11 +36,16 @@ Definition owned (c : cval) : nat := match c with CObj k _ => k | _ => 0 end.
 (* micro actions *)
 Inductive micro :=
 | MRead (v : val)                         (* generic operand of an op *)
+| MTouch (v : val)                        (* raw machine-level operand (pointer comparison): not dereferenced *)
 | MRelease (v : val)                      (* stolen operand (consumes one reference); NULL: nothing to consume *)
+| MForget (v : val)                       (* KeepAlive(steal): the name gives up a reference WITHOUT a run-time
+                                             dec_ref; what was borrowed from it stays alive (BAlways) *)
 | MDec (v : val) (x : bool)               (* dec_ref / xdec_ref *)
 | MInc (v : val)                          (* inc_ref *)
 | MAssume (v : val)                       (* trusted irbuild invariant: v is not the error value here *)
-| MDef (d : val) (own maynull : bool)     (* result of an op: own = refcounted and not borrowed *)
+| MDef (d : val) (own maynull : bool) (ow : option val)
+                                          (* result of an op: own = refcounted and not borrowed;
+                                             ow = the value a borrowed result is borrowed from (None: static) *)
 | MDefNull (d : val)                      (* LoadErrorValue *)
 | MMove (d s : val) (mv own undef : bool) (* Assign d := s; mv = the reference moves (both refcounted);
                                              undef = s is LoadErrorValue(undefines=True) *).
@@ -47,22 +61,25 @@ Record block := { bops : list micro; bterm : term }.
 
 (* op alphabet as dumped *)
 Inductive opkind := KOther | KAssign | KAssignLit | KAssignMulti | KIncRef | KDecRef | KLoadErr | KUnborrow
-                  | KLoadAddress | KKeepAlive | KHeapRef | KAssume.
+                  | KLoadAddress | KKeepAlive | KHeapRef | KAssume | KRawRead.
 
 Record op := { okind : opkind; odest : option val; orc : bool; oborrowed : bool; omaynull : bool;
-               oflag : bool; osrcs : list val; ostolen : list val }.
+               oflag : bool; osrcs : list val; ostolen : list val; oowner : option val }.
 
 Definition generic (o : op) (bor : bool) : list micro :=
   map MRead (osrcs o) ++ map MRelease (ostolen o) ++
-  match odest o with Some d => [MDef d (orc o && negb bor) (omaynull o)] | None => [] end.
+  match odest o with Some d => [MDef d (orc o && negb bor) (omaynull o) (oowner o)] | None => [] end.
 
 Definition compile_op (o : op) : list micro :=
   match okind o with
-  | KOther | KAssignMulti | KKeepAlive | KHeapRef => generic o (oborrowed o)
+  | KOther | KAssignMulti | KHeapRef => generic o (oborrowed o)
+  | KKeepAlive => map MRead (osrcs o) ++ map MForget (ostolen o)
+  | KRawRead => map MTouch (osrcs o) ++
+                match odest o with Some d => [MDef d (orc o && negb (oborrowed o)) (omaynull o) (oowner o)] | None => [] end
   | KUnborrow => generic o false
-  | KLoadAddress => match odest o with Some d => [MDef d false false] | None => [] end
+  | KLoadAddress => match odest o with Some d => [MDef d false false None] | None => [] end
   | KLoadErr => match odest o with Some d => [MDefNull d] | None => [] end
-  | KAssignLit => match odest o with Some d => [MDef d (orc o) false] | None => [] end
+  | KAssignLit => match odest o with Some d => [MDef d (orc o) false None] | None => [] end
   | KAssign => match odest o, osrcs o with
                | Some d, s :: _ => [MMove d s (match ostolen o with [] => false | _ => true end) (orc o) (oflag o)]
                | _, _ => []
@@ -77,15 +94,28 @@ Inductive res (A : Type) := Viol | Blocked | Next (a : A).
 Arguments Viol {A}. Arguments Blocked {A}. Arguments Next {A} a.
 
 (* may the pointer be dereferenced / handed to an op *)
-Definition usable (c : cval) : bool := match c with CObj k b => (0 <? k) || b | _ => false end.
+Definition usable (c : cval) : bool := match c with CObj k b => (0 <? k) || valid b | _ => false end.
 (* generic operand: a usable object, or a NULL that does not stand for an undefined local *)
 Definition readable (c : cval) : bool :=
   match c with CObj _ _ => usable c | CNull u => negb u | CUninit => false end.
 
-(* consume one reference held through v; strict: NULL is a violation (plain dec_ref) *)
-Definition crelease (strict : bool) (v : val) (s : cstate) : res cstate :=
+(* everything borrowed from w now depends on nb instead *)
+Definition retarget (w : val) (nb : bor) (s : cstate) : cstate :=
+  fun x => match s x with
+           | CObj k (BFrom w') => if Pos.eqb w' w then CObj k nb else s x
+           | c => c
+           end.
+Definition inherit (b succ : bor) : bor := match succ with BNone => b | _ => succ end.
+(* what a value borrowed from w depends on *)
+Definition croot (s : cstate) (w : val) : bor :=
+  match s w with CObj (S _) _ => BFrom w | CObj 0 b => b | _ => BNone end.
+
+(* consume one reference held through v; strict: NULL is a violation (plain dec_ref);
+   succ: BFrom d when the reference moves to d (Assign), BNone otherwise *)
+Definition crelease (strict : bool) (v : val) (succ : bor) (s : cstate) : res cstate :=
   match s v with
-  | CObj (S k) b => Next (cset v (CObj k b) s)
+  | CObj (S k) b => let s1 := cset v (CObj k b) s in
+                    Next (match k with 0 => retarget v (inherit b succ) s1 | _ => s1 end)
   | CObj 0 _ => Viol                          (* release of a reference this name does not own *)
   | CNull _ => if strict then Viol else Next s
   | CUninit => Viol
@@ -95,27 +125,30 @@ Definition crelease (strict : bool) (v : val) (s : cstate) : res cstate :=
 Definition cmicro (m : micro) (oc : bool) (s : cstate) : res cstate :=
   match m with
   | MRead v => if readable (s v) then Next s else Viol
-  | MRelease v => crelease false v s
-  | MDec v x => crelease (negb x) v s
+  | MTouch v => match s v with CUninit | CNull true => Viol | _ => Next s end
+  | MRelease v => crelease false v BNone s
+  | MForget v => crelease false v BAlways s
+  | MDec v x => crelease (negb x) v BNone s
   | MInc v => match s v with
               | CObj k b => if usable (s v) then Next (cset v (CObj (S k) b) s) else Viol
               | _ => Viol
               end
   | MAssume v => match s v with CNull _ => Blocked | _ => Next s end
-  | MDef d own maynull =>
+  | MDef d own maynull ow =>
       if Nat.eqb (owned (s d)) 0
       then Next (cset d (if maynull && oc then CNull false
-                         else if own then CObj 1 false else CObj 0 true) s)
+                         else if own then CObj 1 BNone
+                         else CObj 0 (match ow with Some w => croot s w | None => BAlways end)) s)
       else Viol                                (* the old reference in d is overwritten: leak *)
   | MDefNull d => if Nat.eqb (owned (s d)) 0 then Next (cset d (CNull false) s) else Viol
   | MMove d sv mv own undef =>
       if readable (s sv) then
-        match (if mv then crelease false sv s else Next s) with
+        match (if mv then crelease false sv (BFrom d) s else Next s) with
         | Next s1 =>
             if Nat.eqb (owned (s1 d)) 0
             then Next (cset d (match s sv with
                                | CNull u => CNull (u || undef)
-                               | _ => if own then CObj 1 false else CObj 0 true
+                               | _ => if own then CObj 1 BNone else CObj 0 BAlways
                                end) s1)
             else Viol
         | r => r
@@ -144,7 +177,7 @@ Definition cterm (t : term) (ch : bool) (s : cstate) : tres :=
   | TReturn None _ => TDone
   | TReturn (Some v) rc =>
       if readable (s v) then
-        if rc then match crelease false v s with Next _ => TDone | _ => TViol end else TDone
+        if rc then match crelease false v BNone s with Next _ => TDone | _ => TViol end else TDone
       else TViol
   | TUnreachable => TDone
   end.
@@ -152,7 +185,7 @@ Definition cterm (t : term) (ch : bool) (s : cstate) : tres :=
 (* state in which the function returns (after the returned reference was handed to the caller) *)
 Definition cterm_final (t : term) (s : cstate) : cstate :=
   match t with
-  | TReturn (Some v) true => match crelease false v s with Next s' => s' | _ => s end
+  | TReturn (Some v) true => match crelease false v BNone s with Next s' => s' | _ => s end
   | _ => s
   end.
 Definition is_return (t : term) : bool := match t with TReturn _ _ => true | _ => false end.
@@ -186,7 +219,7 @@ Definition violates (f : func) (c : config) : Prop :=
   end.
 
 (* arguments are borrowed from the caller: valid, not owned; optional ones may be NULL *)
-Definition arg_ok (opt : bool) (c : cval) : Prop := c = CObj 0 true \/ (opt = true /\ c = CNull false).
+Definition arg_ok (opt : bool) (c : cval) : Prop := c = CObj 0 BAlways \/ (opt = true /\ c = CNull false).
 Fixpoint lookup_arg (l : list (val * bool)) (v : val) : option bool :=
   match l with [] => None | (a, o) :: r => if Pos.eqb v a then Some o else lookup_arg r v end.
 Definition initial_state (f : func) (s : cstate) : Prop :=
